@@ -315,6 +315,13 @@ def _unit_resolution(names):
         'RETURN = find_bucket("b1", "no-such-host");',  # id matches, hostname does not: still "no such bucket"
         'RETURN = find_bucket("b", "no-such-host");',
         'RETURN = query_bucket(find_bucket("b2", "host1"));',
+        # the optional hostname is not type-checked, so ANY value may arrive there: no bucket has such a
+        # hostname, which is an unknown bucket (seeded: hostname.lower() raised AttributeError for 1)
+        'RETURN = find_bucket("b1", 1);',
+        'RETURN = find_bucket("b1", [1]);',
+        'RETURN = find_bucket("b1", {"a": 1});',
+        'RETURN = find_bucket("b", nop());',
+        'RETURN = find_bucket("", 7);',
     ):
         kind, det = run_text(text, ds)
         record(u, text, kind, det, "resolution")
